@@ -53,6 +53,23 @@
 //	     (token-leaked/per-peer), fdCap black-holed TCP addresses likewise (token-leaked/fd);
 //	     nothing but simulator tasks after every node was closed (residue-after-close); panic.
 //
+// QUIC stratum (drawn FIRST, 1/4 of runs): the /quic-v1 addresses are dialed by the REAL QUIC transport
+// (p2p/transport/quic + quicreuse + quic-go, instrumented, behind the same recorder) over simnet's UDP wire
+// and the target peers (and the honest other peer) are simhost nodes with QUIC: an address is served
+// (succeed), dead (nobody listens: datagrams vanish, the dial ends with quic-go's handshake idle timeout
+// or the dial timeout / context — not a refusal), served by the other peer (TLS peer verification fails),
+// or served after the first 1-3 datagrams of every attempt were lost (scripted UDP filter); in half of
+// these runs the wire also loses (3 % | 15 %), duplicates (5 %) and delays/reorders datagrams. So the real
+// DefaultDialRanker staggers real QUIC before real TCP dials, one worker drives several real transports,
+// UDP addresses go through back-off, the losing transport's in-flight dial is cancelled when the other one
+// wins, and WithSimultaneousConnect(server) callers run the transport's hole punching. Every oracle is
+// unchanged (records come from the wrapper, kind "quic"); liveness (3b) holds under loss because every
+// script's duration is bounded by the dial timeout (15 s) it is charged with. crypto/rand is pinned with
+// simrand.Install, the global math/rand (hole-punch pacing) with rand.Seed (go:debug randseednop=0 below);
+// no scheduler stalls in this stratum. WebTransport / WebSocket / relay stay stubs.
+// Residue: socket loops of quic-go Transports are not compared (quicreuse never drops the reference a
+// SUCCESSFUL dial took on its transport, see goroutines() in world_test.go — reported to the lead, outside C05).
+//
 // Strata (drawn first): exactness (address sets avoid every documented dial filter, so
 // eligibility = "has a transport and not in back-off") vs filters (unspecified, link-local, own
 // listen address, same-2-tuple WebSocket/WebTransport: only the weaker claims, (3) without
@@ -116,15 +133,21 @@
 //	m12 dial_worker: a successful dial answers only one pending request
 //	                                   -> connection-obtained-but-caller-kept-waiting
 //	m13 limiter.clearAllPeerDials drops live jobs too (= the defect repaired by cb59e91) -> (3b)
+//	re-checked through the QUIC stratum (violating runs with quic=true): m3 (a real QUIC address dialed twice),
+//	m5, m6 (real dead QUIC addresses over the cap), m12 (over a real QUIC connection)
 //	m14 dial_worker.dispatchError: the back-off clean-up deletes trackedDials by addr.String() (no-op),
 //	    the refused address stays "failed" for the worker's lifetime (lead's seeded change, scratch worktree)
 //	                                   -> backoff-refusal-after-backoff-ended, backoff-refusal-for-force-direct
+//
+//go:debug randseednop=0
 package c05
 
 import (
 	"context"
 	"errors"
 	"fmt"
+	mrand "math/rand"
+	"net"
 	"os"
 	"sort"
 	"strconv"
@@ -141,6 +164,7 @@ import (
 	"verifsim/harness/common"
 	"verifsim/simhost"
 	"verifsim/simnet"
+	"verifsim/simrand"
 	"verifsim/simrt"
 )
 
@@ -246,9 +270,25 @@ var ctxGrid = []time.Duration{time.Millisecond, 30 * time.Millisecond, 250 * tim
 func run(t *testing.T, tape *simrt.Tape) *common.Outcome {
 	g := simrt.Gen{S: tape.G}
 	o := &common.Outcome{}
-	w := &world{o: o, targets: map[string]*target{}, dns: map[string]dnsEntry{}, dnsSeen: map[string]bool{}}
+	w := &world{o: o, targets: map[string]*target{}, dns: map[string]dnsEntry{}, dnsSeen: map[string]bool{}, udpLost: map[string]int{}}
 
 	// ---- configuration (0 = simplest) --------------------------------------------------------
+	// stratum first: QUIC (the /quic-v1 addresses are dialed by the REAL QUIC transport over simnet's UDP wire and
+	// served, or not, by real nodes) | TCP + stubs (as before)
+	w.quic = g.Chance(1, 4)
+	var udp simnet.UDPConfig
+	if w.quic {
+		if g.Bool() {
+			udp.DropPermille = []int{30, 150}[g.Int(2)]
+			udp.DupPermille = []int{0, 50}[g.Int(2)]
+			udp.Latencies = [][]time.Duration{nil, {0, time.Millisecond, 15 * time.Millisecond}, {0, 5 * time.Millisecond, 80 * time.Millisecond, 400 * time.Millisecond}}[g.Int(3)]
+		}
+		restore := simrand.Install(uint64(7 + udp.DropPermille))
+		defer restore()
+		// the QUIC transport's hole punching (WithSimultaneousConnect, server side) paces its packets with the
+		// global math/rand generator, which nothing else pins (see the go:debug line above the package clause)
+		mrand.Seed(int64(11 + udp.DropPermille))
+	}
 	noise := g.Chance(1, 4)
 	exact := !g.Chance(1, 3)
 	allFail := g.Chance(1, 4)
@@ -263,6 +303,9 @@ func run(t *testing.T, tape *simrt.Tape) *common.Outcome {
 		// lets both pass, the reader (woken by simnet's deadline timer, no scheduling point before its send)
 		// races the context's timer goroutine for real. Stalls are therefore drawn for insecure runs only.
 		stall = 0
+	}
+	if w.quic {
+		stall = 0 // quic-go's timers and a clock that runs while its tasks are parked: not worth the risk for determinism
 	}
 	const ownAddr = "/ip4/10.0.0.1/tcp/4001"
 	keyD, keyQ := simhost.DetKey(1), simhost.DetKey(12)
@@ -372,6 +415,7 @@ func run(t *testing.T, tape *simrt.Tape) *common.Outcome {
 			}
 		}
 	}
+	o.Logf("quic=%v udp=%+v", w.quic, udp)
 	o.Logf("security=%s exact=%v allFail=%v stall=%d latency=%v perPeerCap=%d fdCap=%d rounds=%d gap=%v keepConns=%v slowWorker=%v backoffRejoin=%v",
 		secu, exact, allFail, stall, latency, perPeerCap, fdCap, nRounds, gap, keepConns, slowWorker, backoffRejoin)
 	for _, ps := range w.peers {
@@ -403,10 +447,15 @@ func run(t *testing.T, tape *simrt.Tape) *common.Outcome {
 		probesDone     int
 		dialsNet       []simnet.DialRecord
 		faultsFired    map[string]int
+		udpCounts      map[string]int
 	)
 	timeless := stall > 0 // virtual-time reasoning is off
 
-	res := simrt.Run(t, simrt.Config{MaxSteps: 400000, StallPermille: stall, IdleLimit: 2 * time.Hour, TraceCap: 3000}, tape.S, func() {
+	maxSteps := 400000
+	if w.quic {
+		maxSteps = 3000000
+	}
+	res := simrt.Run(t, simrt.Config{MaxSteps: maxSteps, StallPermille: stall, IdleLimit: 2 * time.Hour, TraceCap: 3000}, tape.S, func() {
 		cfg := simnet.Config{Mode: simnet.Whole}
 		if latency {
 			cfg.Latencies = []time.Duration{0, 0, 5 * time.Millisecond, 80 * time.Millisecond}
@@ -442,7 +491,7 @@ func run(t *testing.T, tape *simrt.Tape) *common.Outcome {
 			}
 		}()
 		mk := func(seed int, ip string) *simhost.Node {
-			nd, err := simhost.New(n, simhost.Opts{Key: simhost.DetKey(seed), IP: ip, Security: secu})
+			nd, err := simhost.New(n, simhost.Opts{Key: simhost.DetKey(seed), IP: ip, Security: secu, QUIC: w.quic})
 			if err != nil {
 				o.Trouble = "node: " + err.Error()
 				return nil
@@ -469,8 +518,26 @@ func run(t *testing.T, tape *simrt.Tape) *common.Outcome {
 			}
 		}
 		byNetKey := map[string]*target{}
+		lossy := map[string]*target{}
 		for _, ps := range w.peers {
 			for _, tg := range ps.targets {
+				if w.quic && tg.kind == tQUIC && !tg.filtered {
+					var err error
+					switch tg.script {
+					case sSucceed, sLossyStart:
+						err = T[ps.idx].Swarm.Listen(ma.StringCast(tg.key))
+					case sWrongPeer:
+						err = Q.Swarm.Listen(ma.StringCast(tg.key))
+					}
+					if err != nil {
+						o.Trouble = fmt.Sprintf("listen %s: %v", tg.key, err)
+						return
+					}
+					if tg.script == sLossyStart {
+						lossy[udpKey(tg.ip, tg.port)] = tg
+					}
+					continue
+				}
 				if tg.kind != tTCP || tg.filtered {
 					continue
 				}
@@ -512,6 +579,19 @@ func run(t *testing.T, tape *simrt.Tape) *common.Outcome {
 			}
 			end.InjectFault(simnet.Fault{Kind: tg.fault, AtCall: tg.faultAt})
 		})
+		if w.quic {
+			n.SetUDP(udp)
+			if len(lossy) > 0 {
+				n.SetUDPFilter(func(from, to *net.UDPAddr, _ []byte) simnet.UDPVerdict {
+					k := net.JoinHostPort(to.IP.String(), fmt.Sprint(to.Port))
+					if tg := lossy[k]; tg != nil && w.udpLost[k] < tg.faultAt {
+						w.udpLost[k]++
+						return simnet.UDPDrop
+					}
+					return simnet.UDPPass
+				})
+			}
+		}
 		simrt.WaitIdle()
 		base := goroutines()
 
@@ -723,6 +803,7 @@ func run(t *testing.T, tape *simrt.Tape) *common.Outcome {
 		}
 		dialsNet = n.Dials()
 		faultsFired = n.FaultsFired()
+		udpCounts = n.UDPCounts()
 		finished = true
 	})
 	o.Sched = res
@@ -817,8 +898,19 @@ func run(t *testing.T, tape *simrt.Tape) *common.Outcome {
 
 	// ---- evidence --------------------------------------------------------------------------------
 	for k, v := range faultsFired {
+		if strings.HasPrefix(k, "udp-") {
+			continue // counted below
+		}
 		for i := 0; i < v; i++ {
 			o.Fault("io-" + k)
+		}
+	}
+	for _, k := range []string{"udp-lost", "udp-duplicated", "udp-delayed", "udp-filtered", "udp-no-socket"} {
+		if v := udpCounts[k]; v > 0 {
+			if o.Faults == nil {
+				o.Faults = map[string]int{}
+			}
+			o.Faults[k] += v
 		}
 	}
 	drawnTCP := map[string]bool{}
@@ -839,7 +931,11 @@ func run(t *testing.T, tape *simrt.Tape) *common.Outcome {
 		if tg == nil || w.peers[tg.peer].target(r.addr) == nil {
 			continue // unknown address or an address of the token probes
 		}
-		if r.kind != tTCP && r.end != 0 {
+		if r.kind == tQUIC && w.quic && r.end != 0 {
+			if tg.script != sSucceed {
+				o.Fault("quic-" + scriptName[tg.script])
+			}
+		} else if r.kind != tTCP && r.end != 0 {
 			o.Fault("stub-" + scriptName[tg.script])
 		}
 		if r.kind == tTCP && r.end != 0 {
@@ -854,7 +950,7 @@ func run(t *testing.T, tape *simrt.Tape) *common.Outcome {
 	}
 	probes(o, w, callers, perPeerCap, fdCap)
 	var sig strings.Builder
-	fmt.Fprintf(&sig, "%s|%v|%v|%d|%d;", secu, exact, allFail, perPeerCap, fdCap)
+	fmt.Fprintf(&sig, "%s|%v|%v|%d|%d|%v;", secu, exact, allFail, perPeerCap, fdCap, w.quic)
 	for _, c := range callers {
 		if !c.probe {
 			fmt.Fprintf(&sig, "%d:%s:%s;", c.peer, c.outcome(), c.connAddr)
@@ -1430,5 +1526,57 @@ func probes(o *common.Outcome, w *world, callers []*caller, perPeerCap, fdCap in
 	}
 	if w.dnsCalls > 0 {
 		o.Probe("dns-resolved")
+	}
+	if !w.quic {
+		return
+	}
+	// QUIC stratum: several real transports for one peer
+	for _, r := range w.recs {
+		tg := w.targets[r.addr]
+		if r.kind != tQUIC || tg == nil || r.end == 0 || w.peers[tg.peer].target(r.addr) == nil {
+			continue
+		}
+		switch {
+		case r.ok:
+			o.Probe("quic-dial-succeeded")
+			if tg.script == sLossyStart {
+				o.Probe("quic-dial-succeeded-after-lost-datagrams")
+			}
+		case tg.script == sHang && r.ctxErrAtEnd == nil:
+			o.Probe("quic-dead-address-handshake-timeout")
+		case tg.script == sHang && errors.Is(r.ctxErrAtEnd, context.DeadlineExceeded):
+			o.Probe("quic-dead-address-dial-timeout")
+		}
+		for _, x := range w.recs {
+			if x.peer != r.peer || x.kind != tTCP || x.end == 0 {
+				continue
+			}
+			if x.startAt > r.startAt && x.start < r.end {
+				o.Probe("tcp-dial-staggered-behind-quic-in-flight")
+			}
+			// one transport wins, the dial on the other one is cancelled (every caller got the connection and left)
+			if x.ok && !r.ok && errors.Is(r.ctxErrAtEnd, context.Canceled) && r.start < x.end && r.end > x.end {
+				o.Probe("quic-dial-cancelled-when-tcp-won")
+			}
+			if r.ok && !x.ok && errors.Is(x.ctxErrAtEnd, context.Canceled) && x.start < r.end && x.end > r.end {
+				o.Probe("tcp-dial-cancelled-when-quic-won")
+			}
+		}
+	}
+	for _, c := range callers {
+		if c.probe || c.simConnect != 2 || !c.returned {
+			continue
+		}
+		for _, r := range w.recs {
+			if r.kind == tQUIC && r.peer == c.peer && r.start > c.inv && r.start < c.ret {
+				o.Probe("quic-hole-punch-dial")
+				break
+			}
+		}
+	}
+	for _, c := range callers {
+		if tg := w.targets[c.connAddr]; c.ok && !c.probe && tg != nil && tg.kind == tQUIC {
+			o.Probe("caller-got-quic-connection")
+		}
 	}
 }
